@@ -173,7 +173,7 @@ func cmdCheck(args []string) int {
 		rep, err := ex.Explore(sh, ex.ExploreConfig{
 			Harness: hs.Func, PkgPath: pkgSpecs[hs.Pkg].Path, Workers: *workers,
 			Solver: []string{"z3", "-in"}, TimeoutMS: timeout,
-			Cfg:      ex.Config{MaxSteps: maxSteps, MaxFrames: 20000, OrderMode: hs.Order},
+			Cfg:      ex.Config{MaxSteps: maxSteps, MaxFrames: 20000, OrderMode: hs.Order, OrderBudget: 1 + tier},
 			Deadline: time.Now().Add(budget), Samples: 6, Verbose: os.Getenv("BKLSYM_VERBOSE") != "",
 		})
 		if err != nil {
